@@ -575,7 +575,39 @@ func c03Rounds(w *run.Worker) {
 	}
 }
 
+// c03DupNames: an input point in which one name is a tag AND a field (hosts merge records that way).
+// The tag is what a read of the name yields (pinned: InitPt indexes tags after fields) - whatever the
+// type of the same-named field's value: the program behaves as on the point that has the tag only.
+func c03DupNames(w *run.Worker) {
+	src := "p(svc)\nif svc { p(1) } else { p(2) }\nx = svc\np(x, x == \"api\")\nfor c in svc { p(c) }\nl = [svc, 1]\np(l)\n"
+	sc, err := drv.Load1("dup.p", src)
+	if err != nil {
+		w.Violate("C03:harness:dup-names-script-does-not-load", err.Error(), c03Case{Part: "dup-names", Source: src})
+		return
+	}
+	runOn := func(fields map[string]any) string {
+		res := drv.Run(sc, PointSpec{Meas: "m", Tags: map[string]string{"svc": "api"}, Fields: fields}.real().Build(), &drv.Sig{FireAt: realPollCap})
+		if res.Panic != "" {
+			return "PANIC " + res.Panic
+		}
+		return strings.Join(res.Trace, ";") + "|" + fmt.Sprint(res.Err)
+	}
+	for i, v := range []any{nil, int64(7), 2.5, true, false, "field text", "", int64(0)} {
+		if !w.Take() {
+			continue
+		}
+		w.Eval()
+		want := runOn(map[string]any{"other": int64(1)})
+		got := runOn(map[string]any{"other": int64(1), "svc": v})
+		w.Outcome("dup-names|" + got)
+		if got != want {
+			w.Violate("C03:dup-names:read-depends-on-the-same-named-field", fmt.Sprintf("tag svc=\"api\" and field svc=%#v (case %d): %s\nwith the tag only: %s\n%s", v, i, got, want, src), c03Case{Part: "dup-names", Source: src})
+		}
+	}
+}
+
 func c03Run(w *run.Worker) {
+	c03DupNames(w)
 	c03Chains(w)
 	c03Rounds(w)
 	c03Truthiness(w)
@@ -603,6 +635,25 @@ func c03Replay(raw json.RawMessage) (bool, string) {
 		drv.Run(prog, c03Point().real().Build(), &drv.Sig{FireAt: realPollCap})
 		got, _ := c03RunCanary()
 		return got != want, fmt.Sprintf("canary alone: %s\ncanary after the program: %s", want, got)
+	}
+	if c.Part == "dup-names" {
+		sc, err := drv.Load1("dup.p", c.Source)
+		if err != nil {
+			return false, err.Error()
+		}
+		runOn := func(fields map[string]any) string {
+			res := drv.Run(sc, PointSpec{Meas: "m", Tags: map[string]string{"svc": "api"}, Fields: fields}.real().Build(), &drv.Sig{FireAt: realPollCap})
+			return strings.Join(res.Trace, ";") + "|" + fmt.Sprint(res.Err) + res.Panic
+		}
+		want := runOn(map[string]any{"other": int64(1)})
+		var b strings.Builder
+		bad := false
+		for _, v := range []any{nil, int64(7), 2.5, true, false, "field text", "", int64(0)} {
+			got := runOn(map[string]any{"other": int64(1), "svc": v})
+			fmt.Fprintf(&b, "field svc=%#v: %s\n", v, got)
+			bad = bad || got != want
+		}
+		return bad, "with the tag only: " + want + "\n" + b.String()
 	}
 	return replaySource(c.Source, c03Point())
 }
